@@ -1,6 +1,6 @@
 (** C03 -- wire codec lossless, matches the SCION format, never truncates silently:
     property theorems only. *)
-From Sci Require Import Wire.Codec Wire.Spec_C03 Wire.Proofs_C03.
+From Sci Require Import Wire.Codec Wire.Spec_C03 Wire.Proofs_C03 Wire.BitFieldProofs.
 Local Open Scope N_scope.
 
 (** A model that cannot be represented on the wire is rejected: whenever the encoder's gate
@@ -31,3 +31,27 @@ Theorem length_fields_truthful_partial :
        end.
 Proof. exact written_lengths_exact. Qed.
 Print Assumptions length_fields_truthful_partial.
+
+(** The bit-field read of core/read.rs (copy the containing bytes right-aligned into the
+    128-bit lane, shift by ceil8(end) - end, mask) IS the mathematical bit field of the
+    buffer read as one big-endian number, for every byte buffer and every range inside it. *)
+Theorem lane_read_spec :
+  forall (b : bytes) (r : rng), bytes_ok b = true -> byte_hi r <= blen b ->
+    lane_read b r = bf_get b r /\ lane_read b r < 2 ^ r_width r.
+Proof.
+  intros b r H1 H2. split; [exact (BitFieldProofs.lane_read_is_bf_get b r H1 H2)|].
+  rewrite (BitFieldProofs.lane_read_is_bf_get b r H1 H2). apply BitFieldProofs.bf_get_lt.
+Qed.
+Print Assumptions lane_read_spec.
+
+(** A field write leaves every field whose bytes do not overlap the written byte range as it
+    was.  PARTIAL with respect to read_write_disjoint (fields sharing a byte, e.g. version /
+    traffic class or the three segment lengths, need the bit-level lemma) and
+    read_write_same: both are exercised on every encoding by the independent reader. *)
+Theorem read_write_disjoint_bytes_partial :
+  forall (b : bytes) (r r2 : rng) (v : N),
+    byte_hi r <= blen b ->
+    byte_hi r2 <= byte_lo r \/ byte_hi r <= byte_lo r2 ->
+    lane_read (lane_write b r v) r2 = lane_read b r2.
+Proof. intros b r r2 v. exact (BitFieldProofs.read_after_write_other_bytes b r v r2). Qed.
+Print Assumptions read_write_disjoint_bytes_partial.
